@@ -3,14 +3,18 @@ from harness import coqio as q
 from harness.pydrv import localsearch_drv as L
 
 ID = "C03"
-COQ_REQUIRE = ["Net", "M_Mgm", "M_Mgm2"]
+COQ_REQUIRE = ["Net", "M_Mgm", "M_Mgm2", "M_Mgm2r"]
 COQ_CASE_TYPE = "lcase"
 COQ_CHECK = "lcheck"
-COQ_PREAMBLE = ("Inductive lcase := CMgm (c : M_Mgm.case) (r : M_Mgm.rcase) | CMgm2 (c : M_Mgm2.case2).\n"
+COQ_PREAMBLE = ("Inductive lcase := CMgm (c : M_Mgm.case) (r : M_Mgm.rcase) "
+                "| CMgm2 (c : M_Mgm2.case2) (r : M_Mgm2r.r2case).\n"
                 "Definition lcheck (c : lcase) : bool := match c with CMgm x r => M_Mgm.check_case x && "
-                "M_Mgm.rcheck_case r | CMgm2 x => M_Mgm2.check_case2 x end.")
+                "M_Mgm.rcheck_case r | CMgm2 x r => M_Mgm2.check_case2 x && M_Mgm2r.r2check_case r end.")
 OBLIGATIONS = ['mgm_movers_independent_partial', 'mgm_round_monotone_partial', 'mgm_rounds_monotone_partial', 'mgm2_monotone_refuted',
-               'mgm_refines_rounds', 'mgm_async_monotone', 'mgm_async_movers_independent']
+               'mgm_refines_rounds', 'mgm_async_monotone', 'mgm_async_movers_independent',
+               'mgm2_unilateral_monotone_partial', 'mgm2_unilateral_movers_independent_partial',
+               'mgm2_coordinated_gain_error', 'mgm2_coordinated_worsening_bound', 'mgm2_pair_state_partial',
+               'mgm2_pair_move_cost_partial']
 N_QUICK, N_THOROUGH = 300, 6000
 PARALLEL = 8
 SHARD = 40
@@ -31,9 +35,17 @@ MODELLED = ("handler models of mgm.py / mgm2.py compared on full event traces, f
             "boundary of the asynchronous run. Theorems: round-level (all inputs) AND, since the deepening "
             "(P_Mgm3*.v), the refinement of the asynchronous handlers to mgm_next under every schedule "
             "(mgm_refines_rounds) hence mgm_async_monotone / mgm_async_movers_independent about real executions at "
-            "cycle boundaries; MGM2: refutation witnesses only")
+            "cycle boundaries; MGM2: refutation witness of the unguarded statement, plus (deepening 2, M_Mgm2r.v / "
+            "P_Mgm2r.v) a ROUND-level function mgm2_next (one complete MGM2 cycle: offerer draws, offers, "
+            "_find_best_offer, commitment, answers, gains, go/no-go) with theorems for all inputs: rounds without "
+            "commitment are monotone and their movers independent; the gain _find_best_offer claims for a "
+            "coordinated move = true decrease + current cost of the shared constraints + acceptor's own cost of "
+            "its new value (exact), and the resulting cost of a round in which only the committed pair moves. "
+            "The refinement of the asynchronous MGM2 handlers to mgm2_next is NOT a theorem: it is checked on "
+            "every run (r2check_case: mgm2_next iterated from the observed initial assignment with the observed "
+            "per-node draws equals the observed assignment at every cycle boundary of the real execution)")
 META = dict(
-    level_text=("Partial proof (Coq). Proved for every DCOP (n-ary constraints, variables' own costs), min and max, all draws: one complete MGM cycle as a function on assignments never worsens the global cost (constraints + own costs) and no two constraint-sharing variables both move; lifted to any number of cycles. ALSO proved (deepening, P_Mgm3*.v): the asynchronous handler model computes exactly this cycle function at every cycle boundary under EVERY schedule of starts and FIFO deliveries (mgm_refines_rounds: a computation with cycle counter c holds the value of the synchronous reference run after c-1 rounds), hence between any reachable configuration where all computations have completed j cycles and any where they have completed j+1 the global cost does not get worse and no two constraint-sharing variables both changed (mgm_async_monotone, mgm_async_movers_independent) - the full MGM statement. The refinement is additionally checked on every run (round-level model replayed against the cycle-boundary assignments of real asynchronous executions, plus the full-trace correspondence of the handler model). MGM2: the handler model is tied to the code by the same full-trace correspondence; the property is refuted for coordinated moves (theorem mgm2_monotone_refuted, known finding C03-mgm2-coordinated-gain), no MGM2 monotonicity theorem."),
+    level_text=("Partial proof (Coq). Proved for every DCOP (n-ary constraints, variables' own costs), min and max, all draws: one complete MGM cycle as a function on assignments never worsens the global cost (constraints + own costs) and no two constraint-sharing variables both move; lifted to any number of cycles. ALSO proved (deepening, P_Mgm3*.v): the asynchronous handler model computes exactly this cycle function at every cycle boundary under EVERY schedule of starts and FIFO deliveries (mgm_refines_rounds: a computation with cycle counter c holds the value of the synchronous reference run after c-1 rounds), hence between any reachable configuration where all computations have completed j cycles and any where they have completed j+1 the global cost does not get worse and no two constraint-sharing variables both changed (mgm_async_monotone, mgm_async_movers_independent) - the full MGM statement. The refinement is additionally checked on every run (round-level model replayed against the cycle-boundary assignments of real asynchronous executions, plus the full-trace correspondence of the handler model). MGM2: the handler model is tied to the code by the same full-trace correspondence; the property is refuted for coordinated moves (theorem mgm2_monotone_refuted, known finding C03-mgm2-coordinated-gain). Deepening 2: a round-level MGM2 function (mgm2_next, checked against the cycle-boundary assignments of every real MGM2 run, refinement to the handlers not proved) with guarded theorems for all inputs: a round in which no node commits to a coordinated move never worsens the global cost and moves no two constraint-sharing variables (mgm2_unilateral_*_partial); the defect is quantified exactly: the gain _find_best_offer claims = true decrease of the global cost + current cost of the constraints shared by the pair + the acceptor's own cost of its new value (mgm2_coordinated_gain_error), hence the cost after a pair move (mgm2_coordinated_worsening_bound, mgm2_pair_move_cost_partial)."),
     level_note=("Trusted: Coq kernel/vm_compute, M_Mgm.v / M_Mgm2.v + Net.v as renderings of the Python code, the "
                 "thread-free netdriver, integer costs inside int32."),
     technique="Coq proof over an executable round-level model + round-level and full-trace correspondence",
@@ -63,13 +75,34 @@ def oracle(c, o):
     return "%s: constraint-sharing variables %s both change value in cycle %d" % (c["algo"], m["pair"], m["cycle"])
 
 
+def coq_mgm2_rcase(c, o):
+    """round-level MGM2 case (M_Mgm2r.r2case): threshold, favor, initial assignment, per-node draws from the
+    first cycle on (the draw spent by on_start on the initial value removed), boundary assignments"""
+    bs = L.boundaries(c, o)
+    n = len(c["vars"])
+    p = c["params"]
+    head = "M_Mgm2r.mkR2Case %s %s %s" % (
+        L.coq_dcop(c), q.z(round(p.get("threshold", 0.5) * 1000)),
+        q.z(["unilateral", "no", "coordinated"].index(p.get("favor", "unilateral"))))
+    if not bs:
+        return head + " [] [] []"
+    orcs = []
+    for i in range(n):
+        dr = list(o["draws"].get(str(i), []))
+        if L.neighbours(c, i) and c["vars"][i].get("init") is None:
+            dr = dr[1:]
+        orcs.append(q.pair(q.z(i), q.zlist(dr)))
+    asg = lambda a: q.lst([q.pair(q.z(i), q.z(a[i])) for i in range(n)])
+    return head + " %s %s %s" % (asg(bs[0]), q.lst(orcs), q.lst([asg(a) for a in bs[1:]]))
+
+
 def coq_case(c, o):
     if c.get("float"):
         return None          # oracle-only stream (non-integer costs): not modelled
     if c["algo"] == "mgm":
         return "CMgm (%s) (%s)" % (L.coq_mgm_case(c, o), L.coq_mgm_rcase(c, o))
     if c["algo"] == "mgm2":
-        return "CMgm2 (%s)" % L.coq_mgm2_case(c, o)
+        return "CMgm2 (%s) (%s)" % (L.coq_mgm2_case(c, o), coq_mgm2_rcase(c, o))
     return None
 
 
@@ -79,7 +112,15 @@ def nontrivial(c, o):
 
 
 def histogram(cases, obs):
-    return L.cycle_histogram(cases, obs)
+    h = L.cycle_histogram(cases, obs)
+    # coverage of the MGM2 round-level correspondence (M_Mgm2r.r2check_case)
+    h["mgm2_round_boundaries_replayed"] = 0
+    h["mgm2_coordinated_value_changes"] = 0
+    for c, o in zip(cases, obs):
+        if c["algo"] == "mgm2" and "events" in o:
+            h["mgm2_round_boundaries_replayed"] += max(0, len(L.boundaries(c, o)) - 1)
+            h["mgm2_coordinated_value_changes"] += sum(1 for e in o["events"] if e[0] == "val" and len(e) > 5)
+    return h
 
 
 def classify(c, o, msg):
